@@ -61,6 +61,10 @@ func (m *MessageCopyFromGenerator) GenerateFields(g *j.Group) {
 	}
 
 	for _, f := range m.Fields {
+		// The placeholder of an empty message has no counterpart in the target struct
+		if f.IsPlaceholder {
+			continue
+		}
 		g.Add(NewFieldCopyFromGenerator(f, m.i).Generate())
 	}
 }
@@ -272,12 +276,20 @@ func (f *FieldCopyFromGenerator) genObjectListOrMap() *j.Statement {
 			g.Var().Id("t").Id(f.i.WithType(f.GoElemType))
 
 			g.If(j.Id("!v.Null && !v.Unknown")).BlockFunc(func(g *j.Group) {
+				if f.IsNullable {
+					// t = &Nested{}
+					g.Id("t").Op("=&").Id(f.i.WithType(f.GoElemTypeIndirect)).Values()
+				}
+
+				// A message with no fields has nothing to read
+				if m.IsEmpty {
+					return
+				}
+
 				// tf := v
 				g.Id("tf").Op(":=").Id("v")
 
 				if f.IsNullable {
-					// t = &Nested{}
-					g.Id("t").Op("=&").Id(f.i.WithType(f.GoElemTypeIndirect)).Values()
 					// obj := t - obj is just an alias to reuse field generator code
 					g.Id("obj").Op(":=").Id("t")
 				} else {
